@@ -4,7 +4,7 @@
    the note-timing rule / order / fake-differs-in-type-only.  The times themselves are exact rationals
    in the model; the binary64 gap of the implementation is measured by the correspondence (1e-9 s). *)
 From Coq Require Import List ZArith NArith QArith Bool.
-From SV Require Import Sx Beat Notes Engine Generated.Tables Proofs.EngineFacts Proofs.Hittable.
+From SV Require Import Sx Beat Notes Engine Generated.Tables Proofs.EngineFacts Proofs.Hittable Proofs.TimeLaw Proofs.ZeroTags.
 Import ListNotations.
 Open Scope Q_scope.
 
@@ -18,6 +18,12 @@ Theorem C13_hittable_iff : forall td v0 b,
   hittable sts s0 b = false <-> (in_raw (td_warps td) b /\ ~ pause_on td b).
 Proof. exact hittable_iff. Qed.
 Print Assumptions C13_hittable_iff.
+
+(* ... and on every beat, negative ones included (the search clamps to the initial state, which is outside every warp) *)
+Theorem C13_hittable_iff_every_beat : forall td v0 b, dom td -> (exists rest, td_bpms td = (0, v0) :: rest) ->
+  (hittable (sts td v0) (init_state td v0) b = false <-> (in_raw (td_warps td) b /\ ~ pause_on td b)).
+Proof. exact hittable_iff_all. Qed.
+Print Assumptions C13_hittable_iff_every_beat.
 
 (* the state list the theorem speaks about is the one the engine builds *)
 Theorem C13_states_are_run_states : forall td v0 rest, td_bpms td = (0, v0) :: rest ->
